@@ -94,6 +94,10 @@ def run_property(prop: str, tier: str, seed: int, evidence_dir=None, quiet=False
                 raise AnalysisError(f"self-test failed for {prop}: {st['failed'][:3]}")
         return rep.finish(evidence_dir=evidence_dir, quiet=quiet)
     except AnalysisError as e:
+        if rep.has_unlisted_violations():
+            # part of the analysis could not be completed, but violations were already established: they stand (exit 1); the undecided part is named
+            print(f"NOTE property={prop} analysis stopped early ({e}); the violations below were established before that")
+            return rep.finish(evidence_dir=evidence_dir, quiet=quiet)
         print(f"ANALYSIS-ERROR property={prop} {e}")
         return 2
     except Exception:
